@@ -189,6 +189,8 @@ func (c *EvalCtx) boundSort(t string) (string, func(*Term) Value) {
 		return SBytes, func(x *Term) Value { return VStr{x} }
 	case "bool":
 		return SBool, func(x *Term) Value { return VBool{x} }
+	case "amount":
+		return SBV(bigW), func(x *Term) Value { return VBV{x, true} }
 	}
 	fail("unknown bound type %s", t)
 	return "", nil
@@ -651,6 +653,16 @@ func (c *EvalCtx) eq(a, b Value) *Term {
 	case VPtr:
 		// pointer to struct: compare pointee
 		return c.eq(c.ex.load(c.state(), x, nil), b)
+	case VList:
+		if y, ok := b.(VList); ok {
+			conj := []*Term{Eq(x.Len, y.Len)}
+			for p, col := range x.Cols {
+				if oc, ok := y.Cols[p]; ok {
+					conj = append(conj, Eq(col, oc))
+				}
+			}
+			return And(conj...)
+		}
 	}
 	fail("cannot compare %s with %s", describe(a), describe(b))
 	return nil
@@ -860,25 +872,42 @@ func (c *EvalCtx) call(e *Expr) Value {
 		}
 		return VStr{MkBytes(arr, BV(64, 32))}
 	case "encMessage":
-		// version, source, destination, nonce, sender, recipient, caller, body  (CCTP header layout)
+		// version, source, destination, nonce, sender, recipient, caller, body  (CCTP header layout).
+		// The three address fields are 32 bytes wide: the layout takes bytes [0,32) of each argument.
 		argn(8)
 		t := Cat(be32(c.asBV(c.eval(e.Args[0]), 32)), be32(c.asBV(c.eval(e.Args[1]), 32)))
 		t = Cat(t, be32(c.asBV(c.eval(e.Args[2]), 32)))
 		t = Cat(t, be64(c.asBV(c.eval(e.Args[3]), 64)))
-		t = Cat(t, c.bytesArg(e.Args[4]))
-		t = Cat(t, c.bytesArg(e.Args[5]))
-		t = Cat(t, c.bytesArg(e.Args[6]))
+		t = Cat(t, fixN(c.bytesArg(e.Args[4]), 32))
+		t = Cat(t, fixN(c.bytesArg(e.Args[5]), 32))
+		t = Cat(t, fixN(c.bytesArg(e.Args[6]), 32))
 		t = Cat(t, c.bytesArg(e.Args[7]))
 		return VStr{t}
 	case "encBurn":
-		// version, burnToken, mintRecipient, amount, messageSender
+		// version, burnToken, mintRecipient, amount, messageSender (32-byte fields)
 		argn(5)
 		amt := c.call(&Expr{Op: "call", Name: "be256", Args: []*Expr{e.Args[3]}}).(VStr).T
-		t := Cat(be32(c.asBV(c.eval(e.Args[0]), 32)), c.bytesArg(e.Args[1]))
-		t = Cat(t, c.bytesArg(e.Args[2]))
+		t := Cat(be32(c.asBV(c.eval(e.Args[0]), 32)), fixN(c.bytesArg(e.Args[1]), 32))
+		t = Cat(t, fixN(c.bytesArg(e.Args[2]), 32))
 		t = Cat(t, amt)
-		t = Cat(t, c.bytesArg(e.Args[4]))
+		t = Cat(t, fixN(c.bytesArg(e.Args[4]), 32))
 		return VStr{t}
+	case "stAttesters":
+		// the enabled-attester list of the state, in store order (what GetAllAttesters returns)
+		argn(0)
+		st := c.state()
+		if c.ex.mode == "L2" {
+			fail("stAttesters() is an L3 notion")
+		}
+		return VList{ElemT: c.ex.attesterType(), Len: st.abs["nAtt"], Cols: map[string]*Term{"Attester": st.abs["attList"]}}
+	case "validAtt":
+		// acceptance predicate of C01 over (message, attestation, attester list, threshold)
+		argn(4)
+		l, ok := c.norm(c.eval(e.Args[2])).(VList)
+		if !ok {
+			fail("validAtt: attester list expected")
+		}
+		return VBool{App("validAtt", SBool, c.bytesArg(e.Args[0]), c.bytesArg(e.Args[1]), l.Cols["Attester"], l.Len, c.asBV(c.eval(e.Args[3]), 32))}
 	case "inited":
 		argn(0)
 		var conj []*Term
@@ -977,4 +1006,12 @@ func (c *EvalCtx) compUnchanged(comp *Comp, except [][]*Term) *Term {
 	}
 	ors = append(ors, same)
 	return Or(ors...)
+}
+
+// fixN is bytes [0,n) of b as an n-byte string (equal to b when b is canonical and n bytes long).
+func fixN(b *Term, n int) *Term {
+	if l, ok := Blen(b).U64(); ok && int(l) == n {
+		return b
+	}
+	return snapArr(Barr(b), BV(64, 0), BV(64, int64(n)))
 }
